@@ -171,3 +171,21 @@ pub fn pick_width(rng: &mut Rng, max: usize) -> usize {
         _ => rng.range(1, max),
     }
 }
+
+/// A configuration that differs from `cfg` only in its decorator, used to
+/// build the render tree that `cfg` then renders (cross-configuration route).
+/// `config::plain()` is the plain decorator plus `do_decorate()`, which adds
+/// agent style rules at tree-building time, so that setting is kept equal.
+pub fn cross_build_cfg(cfg: &Cfg, salt: u64) -> Cfg {
+    let mut b = cfg.clone();
+    let decos = [
+        Deco::PlainNoDecorate,
+        Deco::Rich,
+        Deco::Trivial,
+        Deco::Custom(CustomSpec::ascii()),
+    ];
+    let alt: Vec<&Deco> = decos.iter().filter(|d| **d != cfg.deco).collect();
+    b.deco = alt[(salt % alt.len() as u64) as usize].clone();
+    b.decorate = cfg.decorate_on();
+    b
+}
